@@ -184,6 +184,36 @@ pub fn call(f: &str, args: &[Vec<QR>]) -> Result<Vec<QR>, String> {
             }
             Ok(out)
         }
+        "parse_char" => {
+            // ints 0..=9 and one-character strings become characters (modelled as one-character strings); other ints and longer
+            // strings are errors; the empty string and values of other types are skipped
+            let mut out = vec![];
+            for a in a0 {
+                match a {
+                    QR::R(V::Int(n)) => {
+                        if (0..=9).contains(n) {
+                            out.push(QR::R(V::Str(n.to_string())));
+                        } else {
+                            return Err(format!("cannot convert {} into a char", n));
+                        }
+                    }
+                    QR::R(V::Str(s)) => {
+                        if s.is_empty() {
+                            continue;
+                        }
+                        if !s.is_ascii() {
+                            return Err("non-ascii".into());
+                        }
+                        if s.len() > 1 {
+                            return Err(format!("cannot convert {} into a char", s));
+                        }
+                        out.push(QR::R(V::Str(s.clone())));
+                    }
+                    _ => {}
+                }
+            }
+            Ok(out)
+        }
         _ => Err(format!("function {} not modelled", f)),
     }
 }
